@@ -115,7 +115,7 @@ CONFIG = Config()
 CONFIG.pid = "C16"
 CONFIG.props_module = "KsiVerif.Props.C16"
 CONFIG.required_theorems = ["inv_init", "addLeaf_inv", "close_inclusion", "open_forest_inclusion", "signerPrep_sound", "reset_eq_new", "heightCheck_ok_iff", "refused_close_keeps_builder",
-                             "accepted_leaf_root_within_max", "treeBuilder_root_within_max"]
+                             "accepted_leaf_root_within_max", "treeBuilder_root_within_max", "refused_leaf_would_exceed"]
 CONFIG.translators = [tables.gen_hashalgs]
 CONFIG.engines = [Engine("c16", ["exec_c16.c"], "drv_c16", gen)]
 CONFIG.rule = ("KSI_TreeBuilder (addDataHash/addMetaData/close) on uniform-level sequences of every length 1..64 (thorough ..200) with "
@@ -138,7 +138,7 @@ CONFIG.level_text = ("Kernel-checked for every leaf sequence, every level assign
                      "(reference formula, from the leaf's level) exactly the root level and hash and the root contains all leaves in order; the "
                      "block signer's metadata+mask processors are sound; the height pre-check is characterised AND exact (calculateHighestLevel "
                      "predicts the level of the root that adding and closing really yields: insert_close_level), so an accepted leaf never "
-                     "takes a closed tree above the configured maximum (accepted_leaf_root_within_max) and a leaf is refused only when it "
-                     "would; reset = new.")
+                     "takes a closed tree above the configured maximum (accepted_leaf_root_within_max) and a leaf is refused for its height only when adding "
+                     "and closing would yield a root above the maximum (refused_leaf_would_exceed); reset = new.")
 CONFIG.level_note = ("Trusted: Lean kernel + standard axioms; hand-written model + differential tie. Memory behaviour of refusals is observed "
                      "(ASan/LSan), the functional model has no partial state by construction.")
